@@ -70,3 +70,40 @@ package signer
 //@ ensures-local[C18.envelope-checked] result2 == nil ==> resp != nil && resp.SignatureEnvelopeType == opts.SignatureMediaType && verifiedContent(envContent, string(resp.SignatureEnvelope), opts.SignatureMediaType) && envContent.Payload.ContentType == envelope.MediaTypePayloadV1 && signedPayload == decPayload(string(envContent.Payload.Content)) && descEqual(desc, signedPayload.TargetArtifact) && annotationsKept(desc, signedPayload.TargetArtifact) && result == resp.SignatureEnvelope && result1 == &envContent.SignerInfo
 //@ ensures-local[C18.request] result2 == nil ==> req.KeyID == s.keyID && req.SignatureEnvelopeType == opts.SignatureMediaType && req.PayloadType == envelope.MediaTypePayloadV1 && string(req.Payload) == jsonEnc(box(payload)) && descEqual(payload.TargetArtifact, desc) && payload.TargetArtifact.Annotations == desc.Annotations
 //@ ensures result2 != nil ==> result == nil && result1 == nil
+
+// ---- C07: what the local signer asks notation-core-go to sign ----
+
+//@ global invariant algorithms != nil && has(algorithms, crypto.SHA256) && has(algorithms, crypto.SHA384) && has(algorithms, crypto.SHA512) && forall(h, crypto.Hash, has(algorithms, h) ==> (h == crypto.SHA256 || h == crypto.SHA384 || h == crypto.SHA512) && algorithms[h] == digestOfHash(h))
+//@ global invariant signingAgent != ""
+
+//@ pure func sanitized(d ocispec.Descriptor) ocispec.Descriptor = ocispec.Descriptor{MediaType: d.MediaType, Digest: d.Digest, Size: d.Size, Annotations: d.Annotations}
+
+//@ func getDescriptor
+//@ props C07
+//@ requires genDesc != nil
+//@ at call dynamic: assert[C07.blob-hash] arg0 == digestOfHash(hashOfAlg(algOfKeySpec(ks))) && arg0 != ""
+//@ ensures[C07.blob-hash] hashOfAlg(algOfKeySpec(ks)) == 0 ==> result1 != nil
+
+//@ func (*GenericSigner).Sign
+//@ props C07
+//@ requires s != nil && ctx != nil
+//@ at call (Envelope).Sign: assert[C07.request] arg0 != nil && arg0.Payload.ContentType == envelope.MediaTypePayloadV1 && arg0.SigningScheme == signature.SigningSchemeX509 && arg0.Signer == s.signer && arg0.SigningTime == nowT()
+//@ at call (Envelope).Sign: assert[C07.request-payload] string(arg0.Payload.Content) == jsonEnc(box(envelope.Payload{TargetArtifact: sanitized(desc)}))
+//@ at call (Envelope).Sign: assert[C07.expiry] (opts.ExpiryDuration != 0 ==> arg0.Expiry == timeAdd(nowT(), opts.ExpiryDuration)) && (opts.ExpiryDuration == 0 ==> arg0.Expiry == zero(time.Time))
+//@ at call (Envelope).Sign: assert[C07.agent] arg0.SigningAgent == ite(opts.SigningAgent != "", opts.SigningAgent, signingAgent)
+//@ ensures[C07.self-verified] result2 == nil ==> result1 != nil && verifyEnvErr(string(result), opts.SignatureMediaType) == nil
+//@ ensures result2 != nil ==> result == nil && result1 == nil
+
+//@ func (*GenericSigner).SignBlob
+//@ props C07
+//@ requires s != nil && ctx != nil && genDesc != nil && s.signer != nil
+//@ at call getDescriptor: assert[C07.blob-keyspec] arg0 == signerKeySpec(s.signer) && arg1 == genDesc
+//@ at call (*GenericSigner).Sign: assert[C07.blob-signs-generated] arg1 == desc && arg2 == opts
+
+//@ func (*PluginSigner).SignBlob
+//@ props C07
+//@ modifies any
+//@ requires s != nil && s.plugin != nil && descGenFunc != nil && ctx != nil && opts.ExpiryDuration >= 0
+//@ at call getDescriptor: assert[C07.blob-keyspec] arg0 == ks && arg1 == descGenFunc
+//@ at call (*PluginSigner).generateSignature: assert[C07.blob-signs-generated] arg1 == desc && arg3 == ks
+//@ at call (*PluginSigner).generateSignatureEnvelope: assert[C07.blob-signs-generated] arg1 == desc
